@@ -199,6 +199,16 @@ def render_region(hdr, dirs):
             if idx < 1 or idx > len(loops):
                 raise LostAnchor("fn %s has %d loops, directive wants loop %d" % (kv["fn"], len(loops), idx))
             inserts.append((ct[loops[idx - 1][1]][2], "\n" + payload + "\n"))
+        elif k == "loop-pos":
+            # structural anchor: //@loop-pos <k> before|after|body-start|body-end  (robust against edits of statements)
+            parts = d["arg"].split()
+            idx, where = int(parts[0]), parts[1]
+            if idx < 1 or idx > len(loops):
+                raise LostAnchor("fn %s has %d loops, directive wants loop %d" % (kv["fn"], len(loops), idx))
+            kwi, boi = loops[idx - 1]
+            bci = rustlex.match_close(ct, boi)
+            off = {"before": ct[kwi][2], "after": ct[bci][3], "body-start": ct[boi][3], "body-end": ct[bci][2]}[where]
+            inserts.append((off, "\n" + payload + "\n"))
         elif k == "at":
             m = re.match(r'"([^"]*)"\s+(before|after)(?:\s+nth=(\d+))?', d["arg"])
             if not m:
